@@ -1,6 +1,6 @@
 (* Model of lookups through a Breakpad index (samply-symbols/src/breakpad/symbol_map.rs:286-371 lookup_sync,
    ItemCache::get_string, get_public_info / get_func_info; index.rs: BreakpadFuncSymbol::parse, parse_func_data_line,
-   parse_inline_line_remainder, get_innermost_sourceloc, get_inlinee_at_depth), after the fix for F-C10.
+   parse_inline_line_remainder, get_innermost_sourceloc, get_inlinee_at_depth), after the fixes for F-C10 and F-C08c.
    `text` is the .sym file; entries of the index point into it.  Definitions only. *)
 From SV Require Import Lib.Bytes Model.LineBuffer Model.BreakpadIndex.
 Open Scope N_scope.
@@ -197,8 +197,7 @@ Definition lookup (text : bytes) (ix : index) (a : N) : lres :=
         | Some block =>
             match parse_func block with
             | Some fi =>
-                if 4294967296 <=? s_addr s + fi_size fi then LPanic      (* u32 addition symbol_address + info.size *)
-                else if s_addr s + fi_size fi <=? a then LNone
+                if N.min (s_addr s + fi_size fi) 4294967295 <=? a then LNone       (* symbol_address.saturating_add(info.size) *)
                 else
                   let '(frames, nm) := inline_frames (S (List.length (fi_inlinees fi))) text ix fi a 0 (Some (fi_name fi)) in
                   let last :=
